@@ -6,6 +6,8 @@ ASSUMPTIONS = [
     "failing load/save of custom nodes is exercised by the C08 campaign",
     "after-targets always have products in this campaign (finding F1 is scoped to C01)",
     "observed schedule replayed in the Lean engine; theorems hold for every legal schedule",
+    "stream 'generator' (task generators with products / dependants / after-links, failing, under failure limits): the static engine "
+    "model M6 has no generators, so this stream is checked by the implementation-only oracle (contain, limit, exit) without model replay",
 ]
 
 
@@ -88,6 +90,47 @@ def histories(ctx):
     return hs
 
 
+def generator_histories(ctx):
+    """Labelled stream "generator": some tasks are task generators (@task(is_generator=True)) with products, dependants and
+    after-links, failing before or after writing their products, under failure limits. The static Lean engine has no generators:
+    implementation-only oracle (contain / limit / exit)."""
+    rng = ctx.rng
+    hs = []
+    for i in range(ctx.scale(36, 400)):
+        spec = engine.gen_spec(rng, nt=(3, 7), after_p=0.3, after_needs_prods=True, prodless_p=0.05, dens=0.8,
+                               behs=("ok", "ok", "ok", "early", "late"), styles=("default", "annotated", "kwargs"))
+        consumed = {d for t in spec["tasks"] for d in t["deps"]} | {p for t in spec["tasks"] for a in t.get("after", [])
+                                                                    for u in spec["tasks"] if u["id"] == a for p in u["prods"]}
+        with_dependants = [t for t in spec["tasks"] if set(t["prods"]) & consumed]
+        pool = with_dependants if (with_dependants and rng.random() < 0.8) else spec["tasks"]
+        for t in rng.sample(pool, min(len(pool), rng.randint(1, 2))):
+            t["gen"] = True
+            if rng.random() < 0.6:
+                t["beh"] = rng.choice(["early", "late", "late"])
+        cfg = {"maxfail": rng.choice([None, 1, 1, 2])}
+        steps = [["build", cfg]]
+        gens = [t for t in spec["tasks"] if t.get("gen")]
+        if rng.random() < 0.5:
+            # products left over from a build in which the generator worked, then it starts to fail
+            g = rng.choice(gens)
+            beh = g["beh"] if g["beh"] != "ok" else "early"
+            g["beh"] = "ok"
+            steps = [["build", {}], ["setbeh", g["id"], beh], ["build", cfg]]
+        steps.append(["build", {"maxfail": rng.choice([None, 1, 2])}])
+        hs.append({"tag": "generator", "spec": spec, "steps": steps})
+    return hs
+
+
+def nontrivial_gen(h, recs):
+    gens = {t["id"] for t in h["spec"]["tasks"] if t.get("gen")}
+    for x in recs:
+        if x["step"][0] == "build":
+            for r in x["obs"].get("reports", []):
+                if r[1] == "FAIL" and engine.name_to_id(r[0]) in gens:
+                    return True
+    return False
+
+
 def nontrivial(h, recs):
     b = [r for r in recs if r["step"][0] == "build"]
     return any(any(r[1] == "FAIL" for r in x["obs"].get("reports", [])) for x in b)
@@ -97,10 +140,19 @@ def run(ctx):
     ctx.rule = ("generated projects with injected task failures (raise early/late, omitted product, deleted input), max_failures ∈ {inf,1,2,3}, ±force, "
                 "followed by repeat builds and builds with the failure switched off/on; non-trivial = some build reports ≥1 FAIL; distinct by (spec, steps)")
     engine.run_campaign(ctx, histories(ctx), oracle, nontrivial=nontrivial, sel_eval=engine.sel_eval)
+    # labelled stream "generator" (no model replay: the static engine model has no task generators)
+    before = len(ctx.nontrivial)
+    engine.run_campaign(ctx, generator_histories(ctx), oracle, kinds={"contain", "limit", "exit"}, nontrivial=nontrivial_gen,
+                        sel_eval=engine.sel_eval, compare_model=False)
+    ctx.extra["generator_stream_nontrivial"] = len(ctx.nontrivial) - before
 
 
 def replay(ctx, obj):
-    engine.run_campaign(ctx, [obj["input"]["history"]] * 4, oracle, sel_eval=engine.sel_eval)
+    h = obj["input"]["history"]
+    if h.get("tag") == "generator":
+        engine.run_campaign(ctx, [h] * 4, oracle, kinds={"contain", "limit", "exit"}, sel_eval=engine.sel_eval, compare_model=False)
+    else:
+        engine.run_campaign(ctx, [h] * 4, oracle, sel_eval=engine.sel_eval)
     if ctx.violations:
         return False, ctx.violations[0]["what"]
     if ctx.disagreements:
